@@ -347,20 +347,20 @@ def build_h5(N=2):
 def specs(tier):
     N = 3
     out = [
-        Spec("h1_post_execute", build_h1(N), cfg=sc.cfg(N, stubs={"Scheduler::replay_uncommitted_suffix": replay_stub}), unwind=N + 2, timeout=600,
+        Spec("h1_post_execute", build_h1(N), cfg=sc.cfg(N, stubs={"Scheduler::replay_uncommitted_suffix": replay_stub}), unwind=N + 2, timeout=1800,
              desc="post_execute for every abort reason and arbitrary per-transaction results; suffix replay is a ghost",
              bounds={"n": N}),
         Spec("h2_commit_loop", build_h2(N), cfg=sc.cfg(N, stubs={"OrderedCommitter::commit": commit_stub(N), "WaitSlot::wait_while": wait_env_stub(N)},
                                                           loops={"Scheduler::run_commit_loop": {3: (6, "assert"), 7: (N + 1, "assert")}}),
-             unwind=7, timeout=900,
+             unwind=7, timeout=2700,
              desc="real run_commit_loop + install_commit_loop_result; per-index commit outcome chosen by the solver; the wait is an "
                   "environment step (finality advances or a foreign abort)", bounds={"n": N, "environment_steps": 2}),
-        Spec("h3_seq_suffix", build_h3(N), cfg=sc.cfg(N, loops={"Scheduler::execute_sequential_suffix": {"*": (N + 2, "assert")}}), unwind=N + 3, timeout=600,
+        Spec("h3_seq_suffix", build_h3(N), cfg=sc.cfg(N, loops={"Scheduler::execute_sequential_suffix": {"*": (N + 2, "assert")}}), unwind=N + 3, timeout=1800,
              desc="real execute_sequential_suffix with a solver-chosen transact oracle (ok / invalid / database / custom / header error)",
              bounds={"n": N}),
         Spec("h5_error_at_head", build_h5(2), cfg=sc.mv_cfg(2, L=2, stubs=dict(sc.bene_true_stubs(), **{
                  "<impl ParallelTransactionExecutor as ParallelTransactionExecutor>::execute_incarnation": exec_stub_err})),
-             unwind=4, timeout=900,
+             unwind=4, timeout=2700,
              desc="real execute_task (error branch) for tx 1 || predecessor publishes its write, then commit publication + "
                   "TxDependency::commit; the attempt reads the abstract state version at a solver-chosen moment",
              bounds={"n": 2, "threads": 2, "memory_model": "SC"}),
